@@ -133,7 +133,7 @@ class Ctx:
                                        "distinct_states": st.get("distinct", 0), "wall_s": st["wall_s"]})
         return out, st
 
-    def generate(self, spec_dir, module, cfg_text, name, tag="SCN", **kw):
+    def generate(self, spec_dir, module, cfg_text, name, tag="SCN", limit=None, **kw):
         """run a generator specification; returns the list of JSON values printed under `tag`"""
         out, st = self.tlc(spec_dir, module, cfg_text, name, **kw)
         if st.get("violated"):
@@ -156,6 +156,9 @@ class Ctx:
             else:
                 res.append(v)
         res += list(bykey.values())
+        if limit is not None and len(res) > limit:
+            import random
+            res = random.Random(self.seed).sample(res, limit)
         self.cov["model_runs"].append({"module": module, "config": name, "role": "scenario generation",
                                        "distinct_states": st.get("distinct", 0), "scenarios": len(res),
                                        "wall_s": st["wall_s"]})
@@ -178,6 +181,40 @@ class Ctx:
             return json.loads(last)
         except Exception:
             return {}
+
+    def dv_world(self, scen_path, trace_path, nproc=4, timeout=3000, sub="world"):
+        """run `dv <sub>` on the scenarios with several worker processes (each has its own instances);
+        the traces are concatenated in scenario order"""
+        lines = [l for l in open(scen_path).read().split("\n") if l.strip()]
+        nproc = max(1, min(nproc, len(lines) // 8 or 1))
+        parts = [lines[i::nproc] for i in range(nproc)]
+        procs = []
+        e = dict(os.environ)
+        e["VERIF_SEED"] = str(self.seed)
+        for i, part in enumerate(parts):
+            sp = "%s.%d" % (scen_path, i)
+            with open(sp, "w") as f:
+                f.write("\n".join(part) + "\n")
+            procs.append((subprocess.Popen(["timeout", str(timeout), DV, sub, sp, "%s.%d" % (trace_path, i)], cwd=self.work, env=e,
+                                           stdout=subprocess.PIPE, stderr=subprocess.PIPE, text=True), sp, "%s.%d" % (trace_path, i)))
+        events = 0
+        with open(trace_path, "w") as out:
+            for pr, sp, tp in procs:
+                o, err = pr.communicate()
+                if pr.returncode != 0:
+                    log(o[-1500:])
+                    log(err[-3000:])
+                    raise ToolError("dv %s failed rc=%d" % (sub, pr.returncode))
+                try:
+                    events += json.loads(o.strip().splitlines()[-1]).get("events", 0)
+                except Exception:
+                    pass
+                with open(tp) as f:
+                    shutil.copyfileobj(f, out)
+                os.remove(tp)
+                os.remove(sp)
+        self.cov["steps_executed"] += events
+        return {"events": events}
 
     def write_scenarios(self, scenarios, name="scenarios.ndjson"):
         path = os.path.join(self.work, name)
@@ -218,7 +255,8 @@ class Ctx:
                         log(out[-3000:])
                         raise ToolError("monitor violated but no position found (%s)" % name)
                     fail_line = max(1, st["last_l"] - 1)   # the state after consuming this line is bad
-                    reason = "monitor %s fails after event" % st["violated"]
+                    what = re.findall(r'<<"UNEXPLAINED",\s*(<<[^>]*>>)', out)
+                    reason = "monitor %s fails%s after event" % (st["violated"], (" for " + "; ".join(sorted(set(what))[:4])) if what else "")
                 elif st.get("tool_error"):
                     log(out[-3000:])
                     raise ToolError("trace validation failed: %s" % st["tool_error"])
@@ -242,7 +280,7 @@ class Ctx:
                     else:
                         idx = fail_line - pos - 1
                         results.append({"sid": sc["sid"], "ok": False, "events": n,
-                                        "reason": "%s #%d: %s" % (reason, idx + 1, sc["lines"][idx][:300]),
+                                        "reason": "%s #%d: %s" % (reason, idx + 1, brief(sc["lines"][idx])),
                                         "monitor": st.get("violated"), "lines": sc["lines"],
                                         "devs": devs.get(sc["sid"], [])})
                         failed = True
@@ -299,6 +337,16 @@ class Ctx:
             self.pid, self.tier, "VIOLATED" if self.violations else "held", time.time() - self.t0, cov["states"],
             cov["scenarios_generated"], cov["traces_validated_against_impl"], len(self.known_hit)))
         return 1 if self.violations else 0
+
+
+def brief(line):
+    try:
+        e = json.loads(line)
+        for k in ("st", "defs", "groups"):
+            e.pop(k, None)
+        return json.dumps(e)[:300]
+    except Exception:
+        return line[:300]
 
 
 def load_known():
